@@ -368,6 +368,7 @@ GROUPS = {
     "KernelsHH": ["hhAddCell", "hhMergeCell", "hhMaxStep"],
     "KernelsRand": ["randNext", "logCounterStep"],
     "KernelsPar": ["monitorStep"],
+    "KernelsHHQ": ["hhQuery"],
 }
 
 EXPECT_STMT = {
@@ -439,6 +440,95 @@ def translate_monitor():
             f"  if isNone = true then (true, closed, killedAll) else if nonzero = true then (anyNone, {c}, {k}) else (anyNone, closed, killedAll)\n")
 
 
+def _method(tree, cls, name):
+    for n in tree.body:
+        if isinstance(n, ast.ClassDef) and n.name == cls:
+            for m in n.body:
+                if isinstance(m, ast.FunctionDef) and m.name == name:
+                    b = list(m.body)
+                    if b and isinstance(b[0], ast.Expr) and isinstance(b[0].value, ast.Constant):
+                        b = b[1:]
+                    return b
+    raise TranslateError(f"{cls}.{name} not found")
+
+
+HHQ_QUERY_SKELETON = [
+    "if threshold is None:\n    threshold = int(self.phi * self.n_added())\nelse:\n    threshold = np.uint32(threshold)",
+    "if <regen test>:\n    self.generate_candidate_set(threshold)",
+    "return self.candidate_set.most_common(k)",
+]
+HHQ_REGEN_SKELETON = [
+    "if threshold is None:\n    threshold = int(self.phi * self.n_added())\nelif not isinstance(threshold, int):\n    threshold = np.uint32(threshold)",
+    "self.n_added_sort = self.n_added()",
+    "self.threshold_sort = threshold",
+    "self.candidate_set = Counter()",
+    "for row in range(self.depth): for column in range(self.width): <cell visit>",
+]
+HHQ_VISIT_SKELETON = [
+    "if <empty test>:\n    continue",
+    "key_len = self.key_lens[row, column]",
+    "key = bytes(self.lhh[row, column, :key_len])",
+    "if <unseen test>:\n    max_count = _max_count(self.lhh, self.lhh_count, self.key_lens, self.width, self.depth, self.max_key_len, key, key_len)\n"
+    "    if <threshold test>:\n        self.candidate_set[key] = max_count",
+]
+
+
+def translate_hhquery():
+    """`HeavyHitters.query` / `generate_candidate_set` (plain Python): the cache test of `query`, and the visit of one cell in
+    `generate_candidate_set`, with everything around them required to read exactly as modelled (`HHQ.query`, `HHQ.regen`, `HH.candStep`)."""
+    src, tree = _parse(os.path.join(REPO, "sketchnu", "heavyhitters.py"))
+    q = _method(tree, "HeavyHitters", "query")
+    if len(q) != 3 or not isinstance(q[1], ast.If) or q[1].orelse:
+        raise TranslateError(f"HeavyHitters.query: expected 3 statements (threshold, regenerate-if, return), found {[ast.unparse(x)[:50] for x in q]}")
+    regen_test = q[1].test
+    got = [ast.unparse(q[0]), "if <regen test>:\n    " + "\n    ".join(ast.unparse(x) for x in q[1].body), ast.unparse(q[2])]
+    if got != HHQ_QUERY_SKELETON:
+        raise TranslateError(f"HeavyHitters.query no longer reads as modelled: {got!r}")
+    names = {"self.n_added_sort": "n_added_sort", "self.n_added()": "n_added", "self.threshold_sort": "threshold_sort", "threshold": "threshold"}
+
+    def tr_test(n, names):
+        if isinstance(n, ast.BoolOp):
+            return "(" + (" ∧ " if isinstance(n.op, ast.And) else " ∨ ").join(tr_test(v, names) for v in n.values) + ")"
+        if isinstance(n, ast.UnaryOp) and isinstance(n.op, ast.Not):
+            return f"(¬ {tr_test(n.operand, names)})"
+        if isinstance(n, ast.Compare) and len(n.ops) == 1 and type(n.ops[0]) in CMPOPS:
+            def side(x):
+                u = ast.unparse(x)
+                if u in names:
+                    return names[u]
+                if isinstance(x, ast.Constant) and isinstance(x.value, int):
+                    return str(x.value)
+                raise TranslateError(f"unsupported operand `{u}` in `{ast.unparse(n)}`")
+            return f"({side(n.left)} {CMPOPS[type(n.ops[0])]} {side(n.comparators[0])})"
+        raise TranslateError(f"unsupported test `{ast.unparse(n)}`")
+
+    regen = tr_test(regen_test, names)
+    g = _method(tree, "HeavyHitters", "generate_candidate_set")
+    if len(g) != 5 or not isinstance(g[4], ast.For) or len(g[4].body) != 1 or not isinstance(g[4].body[0], ast.For):
+        raise TranslateError("HeavyHitters.generate_candidate_set: expected threshold / n_added_sort / threshold_sort / candidate_set / row-column loops")
+    outer, inner = g[4], g[4].body[0]
+    got = [ast.unparse(x) for x in g[:4]] + [f"for {ast.unparse(outer.target)} in {ast.unparse(outer.iter)}: for {ast.unparse(inner.target)} in {ast.unparse(inner.iter)}: <cell visit>"]
+    if got != HHQ_REGEN_SKELETON:
+        raise TranslateError(f"HeavyHitters.generate_candidate_set no longer reads as modelled: {got!r}")
+    v = inner.body
+    ok = (len(v) == 4 and isinstance(v[0], ast.If) and not v[0].orelse and isinstance(v[3], ast.If) and not v[3].orelse and len(v[3].body) == 2
+          and isinstance(v[3].body[1], ast.If) and not v[3].body[1].orelse)
+    if not ok:
+        raise TranslateError("generate_candidate_set: the visit of one cell no longer has the modelled shape")
+    got = ["if <empty test>:\n    " + "\n    ".join(ast.unparse(x) for x in v[0].body), ast.unparse(v[1]), ast.unparse(v[2]),
+           "if <unseen test>:\n    " + ast.unparse(v[3].body[0]) + "\n    if <threshold test>:\n        " + "\n        ".join(ast.unparse(x) for x in v[3].body[1].body)]
+    if got != HHQ_VISIT_SKELETON:
+        raise TranslateError(f"generate_candidate_set: the visit of one cell no longer reads as modelled: {got!r}")
+    vnames = {"self.lhh_count[row, column]": "count", "self.candidate_set[key]": "lookup", "max_count": "max_count", "threshold": "threshold"}
+    t_empty, t_unseen, t_thr = tr_test(v[0].test, vnames), tr_test(v[3].test, vnames), tr_test(v[3].body[1].test, vnames)
+    return ("/-- `HeavyHitters.query`: the test that decides whether the cached candidate set is rebuilt (everything around it reads exactly as modelled) -/\n"
+            f"def queryRegen (n_added_sort n_added threshold_sort threshold : Nat) : Bool :=\n  decide {regen}\n\n"
+            "/-- `HeavyHitters.generate_candidate_set`: does the visit of one cell insert `(key, max_count)`?  `count` = `lhh_count[row, column]`, "
+            "`lookup` = `candidate_set[key]` (0 when absent), `max_count` = `_max_count(…key…)` -/\n"
+            "def candInsert (count lookup max_count threshold : Nat) : Bool :=\n"
+            f"  if {t_empty} then false else if {t_unseen} then decide {t_thr} else false\n")
+
+
 def render(group):
     """returns (text, errors)"""
     L = ["/- GENERATED by harness/kernels.py from the current /repo source — do not edit.",
@@ -446,6 +536,13 @@ def render(group):
          "namespace Sketchnu.Src", ""]
     errors = []
     for name in GROUPS[group]:
+        if name == "hhQuery":
+            try:
+                L.append(translate_hhquery())
+            except TranslateError as e:
+                errors.append(f"hhQuery: {e}")
+                L.append(f"-- TRANSLATION FAILED for hhQuery: {e}\n")
+            continue
         if name == "monitorStep":
             try:
                 L.append(translate_monitor())
